@@ -723,7 +723,7 @@ func afterDecrypt(c *engine.Ctx) {
 	w := apworld.NewWorld(c.Seed)
 	kt := keytab.New()
 	if err := kt.Unmarshal(w.Keytab); err != nil {
-		engine.Fatal("model keytab: %v", err)
+		engine.FailValid("keytab.Unmarshal(model keytab)", err)
 	}
 	vclock.Virtual(apworld.T0)
 	for _, et := range rcrypto.Etypes {
@@ -896,7 +896,7 @@ func constructed(c *engine.Ctx) {
 		for i := 0; i < n; i++ {
 			var t messages.Ticket
 			if err := t.Unmarshal(ticketN(i)); err != nil {
-				engine.Fatal("ticket: %v", err)
+				engine.FailValid("ticket construction", err)
 			}
 			tk = append(tk, t)
 		}
